@@ -87,6 +87,8 @@ class ElemEval:
                 hi = None if sl.upper is None else (sl.upper.value if isinstance(sl.upper, ast.Constant) else 'x')
                 if base[0] == 'el' and hi is None and lo is not None:
                     return ('tail', base[1], lo)
+                if base[0] == 'el' and isinstance(hi, int) and isinstance(lo, int) and 0 <= lo <= hi <= 16:
+                    return ('lst', tuple(('el', base[1] + (k,)) for k in range(lo, hi)))      # x[a:b] with constant bounds: its elements
                 if base[0] == 'lst' and lo is not None and hi != 'x':
                     return ('lst', base[1][lo:hi])
             return ('unk', src(e)[:40])
@@ -95,6 +97,15 @@ class ElemEval:
             fn = src(f)
             if fn in ('np.array', 'np.asarray', 'numpy.array', 'list', 'tuple') and e.args:
                 return self.ev(e.args[0], env, depth)
+            if fn in ('np.append', 'numpy.append') and len(e.args) == 2 and not e.keywords:
+                a, b = self.ev(e.args[0], env, depth), self.ev(e.args[1], env, depth)
+                return ('lst', a[1] + b[1]) if a[0] == 'lst' and b[0] == 'lst' else ('unk', src(e)[:40])
+            if fn in ('np.concatenate', 'np.hstack', 'numpy.concatenate', 'numpy.hstack') and len(e.args) == 1 and not e.keywords \
+                    and isinstance(e.args[0], (ast.Tuple, ast.List)):
+                parts = [self.ev(x, env, depth) for x in e.args[0].elts]
+                if parts and all(p_[0] == 'lst' for p_ in parts):
+                    return ('lst', tuple(x for p_ in parts for x in p_[1]))
+                return ('unk', src(e)[:40])
             if fn == self.cls_name and len(e.args) == 1:
                 a = self.ev(e.args[0], env, depth)
                 if a[0] == 'lst' and len(a[1]) == 6:
